@@ -120,13 +120,13 @@ CHECK = {
     ],
     "trusted_base": [
         "Coq 8.16.1 kernel; axioms: none",
-        "c02_wellformed: every response the COMPOSED model (Model/ServerW.v) returns in octets — every answer out of a Loaded zone "
-        "to a clean QUERY without TSIG, and the NOTIMP/REFUSED/SERVFAIL answers to such queries — is accepted by wf_response; from C12's message-level round trip (c12_roundtrip), the key "
+        "c02_wellformed: every response the COMPOSED model (Model/ServerW.v) returns in octets — EVERY response without a TSIG: "
+        "answers out of Loaded zones, NOTIMP/REFUSED/SERVFAIL, and the FORMERR/BADVERS/... responses of the pre-scan — is accepted by wf_response; from C12's message-level round trip (c12_roundtrip), the key "
         "lemma that query.rs only issues contract-obeying Writer operations (Proofs/ComposeKeyP.v), and the proof that RDATA validity "
         "survives compression + decompression (Proofs/ComposeRdataP.v, which re-checks the component table regenerated from the Rust "
         "source against the RFC grammars for every class and type). Trusted there: the fidelity of the models (compared octet for "
         "octet with the real server on every run). ORACLE part (not a theorem): the responses that stay abstract in the composed "
-        "model (FORMERR/BADVERS/SERVFAIL decided by the pre-scan; everything with a TSIG) — and all responses of the "
+        "model (everything with a TSIG) — and all responses of the "
         "REAL server — are decided per response by the extracted decoder (Spec/RespS.v wf_response over Spec/MsgWriterS.v "
         "decode_msg and Spec/RdataFormatS.v grammars)",
         "extraction: ExtrOcamlBasic only; the three implementation runners (responses' raw octets), checks/c02.py plumbing",
@@ -138,15 +138,15 @@ MANIFEST = {
     "level_text": ("Theorem c02_wellformed (Coq, no axioms): for every request, transport, EDNS size, key set and every catalog whose "
                    "Loaded entries are zones built by Zone::add over records whose RDATA is valid for its type (hypothesis "
                    "zone_rdata_valid, explicit: Zone::add itself does not validate, zone files do), every response the composed "
-                   "model of Server::handle_message produces in octets — all answers out of loaded zones to clean queries without "
-                   "TSIG: positive answers, CNAME chains, referrals with glue, NXDOMAIN/NODATA, ANY, truncated (TC) and SERVFAIL "
+                   "model of Server::handle_message produces in octets — EVERY response that does not carry a TSIG: the error responses "
+                   "of the pre-scan (FORMERR, BADVERS, ...), and all answers out of loaded zones to clean queries: positive answers, CNAME chains, referrals with glue, NXDOMAIN/NODATA, ANY, truncated (TC) and SERVFAIL "
                    "endings, plus NOTIMP/REFUSED/SERVFAIL for names outside loaded zones, with or without EDNS, both transports — is accepted by the independent decoder wf_response: it decodes "
                    "completely under the RFC 1035 message decoder (header counts = records present, ends exactly after the last "
                    "record, names decode under the C14 relation with pointers strictly backwards), QR is set, every RDATA with its "
                    "names decompressed is generated by the RFC grammar of its (class, type), no OPT/TSIG in answer/authority, at "
                    "most one OPT, no TSIG. c02_hypothesis_needed shows on the model that without zone_rdata_valid a served record "
                    "is rejected (CNAME RDATA `name ++ junk`). STILL ORACLE ONLY (not a theorem): responses that are abstract in the "
-                   "composed model — the error responses decided by the pre-scan (FORMERR, BADVERS, ...) and every response carrying a TSIG. The extracted "
+                   "composed model — the responses carrying a TSIG. The extracted "
                    "decoder keeps running on every response of the REAL server in three suites (C04's size-limit pairs over both "
                    "transports, C05's catalogs, the server-level stream with malformed requests, EDNS and TSIG): ~14k responses per "
                    "quick run. First-wave theorems (meaning of the decoder's verdict, counts written by finish) are kept."),
